@@ -4,6 +4,7 @@ import MxModel.Proofs.ExecCertRunOps
 import MxModel.Proofs.ExecInputsRun
 import MxModel.Proofs.ExecResolveSM
 import MxModel.Proofs.ExecCertExamples
+import MxModel.Proofs.EditMachineInputs
 /-!
 # C02 – no stale value survives any edit
 
@@ -40,10 +41,17 @@ below), `Scoped env` (static scoping: a by-name read is of a reference of the fo
 space, which is how Python resolves globals), and – only for the corollary about what later
 evaluations *return*, inherited from C01 – `LimitNotCaughtInThisCall` (C01).
 
-What is **not** a Lean theorem: the structural part of the property (which spaces a structural
-edit notifies, derived members) – decided by the implementation-only oracle (live model against
-a model to which only the edits were applied, after every evaluation) and by the small-scope
-exhaustive enumeration of single edits.  The mechanism model functions the theorems are about
+**Structural edits** (last section; model `Edit/Machine.lean`, proofs `Proofs/EditMachine*.lean`): the
+combined machine – structural mechanism model × executor, the definitions READ OFF the structure,
+every structural operation followed by the clearing the code performs for it – keeps the invariant
+through every operation (`machine_keeps_ci`; the premise "which cells are notified" of
+`no_stale_in_sub_spaces_after_member_edit` is derived: `clearing_covers_every_change`), hence
+`no_stale_value_after_any_structural_history` and `live_equals_edits_only`.
+
+What is **not** a Lean theorem: model-level references, object-valued references, parametrised
+spaces, formulas with handlers – decided by the
+implementation-only oracle (live model against a model to which only the edits were applied, after
+every evaluation) and by the small-scope exhaustive enumeration of single edits.  The mechanism model functions the theorems are about
 are tied to the code by the value-layer correspondence of this property's check
 (`harness/mxh/props/c02.py`: held values, trace graph and reference graph after every
 operation of generated histories with reference, formula, flag and value edits).
@@ -565,5 +573,213 @@ theorem cell_create_fails_catch :
     exact ⟨3, by decide⟩
   have := Den_det _ _ _ _ _ this hspec
   cases this
+
+
+/-! ## Structural edits: the combined machine (`Edit/Machine.lean`)
+
+The state `Edit.W` is a structural state (`SM.St`, `Struct/Mech.lean`), an executor state and the
+identities of the members.  The definitions the executor sees, `w.env P`, are read off the structure:
+every cells member `(space, name)` – defined or derived – is a cells of its own whose formula is the
+source its entry carries (for a derived member: its first definer's) RESOLVED IN THE NAMESPACE OF ITS
+OWN SPACE, with the flags of that definition; every reference member a reference of its own.  A
+structural operation applies `SM.St.apply` and then performs on the executor state the clearing
+modelx performs (`Edit.clearing`: `clear_obj`, namespace notifications, `clear_attr_referrers`, read
+off `SpaceManager` / `SpaceUpdater` / `UserSpaceImpl.on_inherit`), under the flags in force.
+
+`Edit.CIW P lt w`: `SM.Inv` (C03's `run_inv`) ∧ every member has an identity ∧ the certificate
+invariant `CI` for `w.env P`.  Regime: `WF (w.env P) lt` (`Ranked`, `NoCatchEnv`, `Scoped` for the
+RESOLVED definitions) in every state of the history (`Edit.Admissible`); `structure_regime_from_sources`
+says how it is guaranteed by the sources. -/
+
+/-- **The clearing modelx performs reaches every definition the edit changes** – in the space of the
+edit and in EVERY sub space.  `Edit.Covers t st st' cl`: a cells (own or derived, of any space)
+whose namespace differs between `st` and `st'` is notified or cleared; a cells whose entry differs
+(new definer, new formula, deleted) is cleared as an object; for a reference whose entry differs the
+cells of its space are notified and, if it existed, `clear_attr_referrers` is performed.  From the
+structural invariant alone, for EVERY structural operation: `new_space`, `del space`, `new_cells`,
+`set_cells_property` (formula or cache flag), `del_cells`, `rename_cells`, `space.name = v` (new and
+changed), `del_ref`, `add_bases`, `remove_bases`.  This is the premise `hL` of
+`no_stale_in_sub_spaces_after_member_edit`, derived from the definition of the clearing instead of
+assumed. -/
+theorem clearing_covers_every_change (P : Edit.Params) (w : Edit.W) (o : SM.Op) (hi : SM.Inv w.sm)
+    (st' : SM.St) (hop : w.sm.apply P.kw o = some st') :
+    Edit.Covers (w.tabs.grow st') w.sm st' (Edit.clearing P.kw (w.tabs.grow st') w.sm st' o) :=
+  Edit.stepCovers_of_inv P w (.struct o) hi st' hop
+
+/-- **`machine_keeps_ci`: every operation of the combined machine keeps the invariant** – for the
+definitions of the NEW structure.  No premise about which cells are notified. -/
+theorem machine_keeps_ci (P : Edit.Params) (lt : Node → Node → Prop) (ho : StrictOrder lt) (w : Edit.W)
+    (op : Edit.Op) (hw : WF (w.env P) lt) (h : Edit.CIW P lt w) :
+    Edit.CIW P lt (Edit.step P w op) :=
+  Edit.step_ciw ho w op hw h (Edit.stepCovers_of_inv P w op h.inv)
+
+/-- the decidable form of the coverage premise (`Edit.stepCovered`, evaluated by the driver at every
+step of every compared history as a cross-check of `clearing_covers_every_change`) suffices too -/
+theorem machine_keeps_ci_of_check (P : Edit.Params) (lt : Node → Node → Prop) (ho : StrictOrder lt) (w : Edit.W)
+    (o : SM.Op) (hs : Edit.supported o = true) (hc : Edit.stepCovered P w (.struct o) = true)
+    (hw : WF (w.env P) lt) (h : Edit.CIW P lt w) : Edit.CIW P lt (Edit.step P w (.struct o)) :=
+  Edit.step_ciw ho w _ hw h
+    (Edit.stepCovers_of_check P w _ (fun o' e => by cases e; exact hs) hc)
+
+/-- **Every state the combined machine reaches from the empty model has the invariant** – any finite
+interleaving of structural edits (accepted or refused) and evaluations, assignments, clearings. -/
+theorem machine_reachable_ci (P : Edit.Params) (lt : Node → Node → Prop) (ho : StrictOrder lt)
+    (ops : List Edit.Op) (hadm : Edit.Admissible P lt {} ops) :
+    Edit.CIW P lt (Edit.run P {} ops) ∧ WF ((Edit.run P {} ops).env P) lt :=
+  Edit.run_ciw ho ops {} (Edit.wf_empty P lt) (Edit.ciw_empty P lt) hadm
+
+/-- **C02 for structural histories: every value held in any reachable state is the denotation under
+the CURRENT structure** – the formulas of derived cells resolved in their sub space, the current
+reference values, the current inputs – whatever was evaluated before the edits. -/
+theorem no_stale_value_after_any_structural_history (P : Edit.Params) (lt : Node → Node → Prop)
+    (ho : StrictOrder lt) (ops : List Edit.Op) (hadm : Edit.Admissible P lt {} ops) :
+    Good ((Edit.run P {} ops).env P) (inpOf (Edit.run P {} ops).ex) (Edit.run P {} ops).ex :=
+  (machine_reachable_ci P lt ho ops hadm).1.ci.good
+
+/-- the same, element by element: a value held for element `key` of the cells member `(q, n)` -/
+theorem held_value_is_current_denotation (P : Edit.Params) (lt : Node → Node → Prop) (ho : StrictOrder lt)
+    (ops : List Edit.Op) (hadm : Edit.Admissible P lt {} ops) (q : SM.Path) (n : String) (key : Key) (v : Val)
+    (hl : lookup (Edit.run P {} ops).ex.data ((Edit.run P {} ops).tabs.cid q n, key) = some v) :
+    Den ((Edit.run P {} ops).env P) (inpOf (Edit.run P {} ops).ex) ((Edit.run P {} ops).tabs.cid q n, key) (.ok v) := by
+  have h := (machine_reachable_ci P lt ho ops hadm).1.ci
+  exact h.good.sound _ v (h.gi.heldNodes _ (by rw [hl]; rfl)).2 hl
+
+/-- **The headline for the combined operation language**: whatever was evaluated in between, the
+value a later call returns equals the value returned by the model that ran the same history with
+every evaluation removed.  Both models have the same structure, identities and inputs
+(`Edit.run_sim`); no hypothesis about the second run, none about the depth limit. -/
+theorem live_equals_edits_only (P : Edit.Params) (lt : Node → Node → Prop) (ho : StrictOrder lt)
+    (ops : List Edit.Op) (hadm : Edit.Admissible P lt {} ops) (q : SM.Path) (n : String) (key : Key) (v v' : Val)
+    (h1 : Edit.answer P (Edit.run P {} ops) q n key = some (.ok v))
+    (h2 : Edit.answer P (Edit.run P {} (Edit.noEvals ops)) q n key = some (.ok v')) : v = v' := by
+  have hr0 : RgNoInputs ({} : Edit.W).ex := fun e he => by simp at he
+  obtain ⟨hs, c1, c2, hwf⟩ := Edit.run_sim ho ops {} {} (Edit.wf_empty P lt) (Edit.ciw_empty P lt)
+    (Edit.ciw_empty P lt) hr0 hr0 ⟨rfl, rfl, rfl⟩ hadm
+  have henv := hs.env_eq P
+  unfold Edit.answer at h1 h2
+  split at h1
+  · split at h2
+    · simp only [Option.some.injEq] at h1 h2
+      rw [henv, hs.tabs] at h2
+      have a := (C01.eval_value_is_denotation_nocatch_partial _ _ hwf.noCatch _ _ c1.ci.good).1 v h1
+      have hg2 : Good ((Edit.run P {} ops).env P) (inpOf (Edit.run P {} ops).ex) (Edit.run P {} (Edit.noEvals ops)).ex := by
+        have := c2.ci.good
+        rw [henv, hs.inp] at this
+        exact this
+      have b := (C01.eval_value_is_denotation_nocatch_partial _ _ hwf.noCatch _ _ hg2).1 v' h2
+      have := Den_det _ _ _ _ _ a b
+      cases this; rfl
+    · cases h2
+  · cases h1
+
+/-- **What a cells of the machine computes**: in every reachable state the formula of the cells member
+`(q, n)` – defined in `q` or derived into it – is the source its entry carries (for a derived member the
+payload of its FIRST definer, `C03.mech_derived_from_first_definer`) resolved in the namespace of `q`
+itself; the machine has no model-level references, its namespace is `SM.nsOf`, and the formula is the one
+`SM.structEnv` assigns (`C03.derived_cells_formula_is_definers_source_in_sub_space`). -/
+theorem machine_formula_is_source_in_own_space (P : Edit.Params) (lt : Node → Node → Prop) (ho : StrictOrder lt)
+    (ops : List Edit.Op) (hadm : Edit.Admissible P lt {} ops) (q : SM.Path) (n : String) (m : SM.Member)
+    (hm : (Edit.run P {} ops).sm.mem .cells q n = some m) (key : Key) :
+    ((Edit.run P {} ops).env P).formula ((Edit.run P {} ops).tabs.cid q n, key) =
+      resolve (Edit.nsAt (Edit.run P {} ops).tabs (Edit.run P {} ops).sm q) (P.srcOf m.payload key) ∧
+    (∀ gid, Edit.nsAt (Edit.run P {} ops).tabs (Edit.run P {} ops).sm q =
+      SM.nsOf ⟨(Edit.run P {} ops).tabs.cid, (Edit.run P {} ops).tabs.rid, gid⟩ (Edit.run P {} ops).sm q) ∧
+    (∀ (se : SEnv) (D : SM.Dec) (gid : String → RefId),
+      D.cellOf ((Edit.run P {} ops).tabs.cid q n) = (q, n) → D.pathOf (D.num q) = q →
+      ((Edit.run P {} ops).env P).formula ((Edit.run P {} ops).tabs.cid q n, key) =
+        (SM.structEnv se ⟨(Edit.run P {} ops).tabs.cid, (Edit.run P {} ops).tabs.rid, gid⟩ D P.srcOf P.valOf
+          (Edit.run P {} ops).sm).toEnv.formula ((Edit.run P {} ops).tabs.cid q n, key)) := by
+  have h := (machine_reachable_ci P lt ho ops hadm).1
+  have hg : (Edit.run P {} ops).sm.globals = [] := Edit.globals_run P ops {} SM.inv_empty rfl
+  exact ⟨Edit.envOf_formula_member P _ _ h.alloc q n m hm key,
+    fun gid => Edit.nsAt_eq_nsOf _ _ hg gid q,
+    fun se D gid hdec hnum => Edit.envOf_agrees_with_structEnv P _ _ h.alloc hg se D gid q n m hm key hdec hnum⟩
+
+/-- **The inputs after a structural edit** are the inputs before minus those of the cells the clearing
+removed as objects (`clear_obj`, deletion of the space): notifications and
+`clear_attr_referrers` keep every input. -/
+theorem inputs_after_structural_clearing (env : Env) (lt : Node → Node → Prop) (hw : WF env lt) (s : St)
+    (h : CI env lt s) (hr : RgNoInputs s) (cl : List Edit.Clear) (m : Node) :
+    inpOf (Edit.doClears env s cl) m = if Edit.clearedBy cl m.1 = true then none else inpOf s m :=
+  (Edit.inpOf_doClears hw.scoping hw.noCatch cl s h hr).1 m
+
+/-- **How the regime is guaranteed**: for every structural state, `NoCatchEnv` and `Scoped` of the
+resolved definitions follow from the SOURCES – `NsNoCatch`: resolved in any namespace the source
+turns no failure into a value; `NsScoped`: its by-name reads are of what the namespace binds
+(`SProg.readN` / `SProg.callN`: `LOAD_GLOBAL`, then use) – `Ranked` (termination) remains a
+hypothesis about the structure, free for sources that call nothing (`Edit.ranked_envOf_noCalls`). -/
+theorem structure_regime_from_sources (P : Edit.Params) (t : Edit.Tabs) (st : SM.St) (lt : Node → Node → Prop)
+    (ha : Edit.AllocOK t st) (hnc : ∀ v key, Edit.NsNoCatch (P.srcOf v key))
+    (hsc : ∀ v key, Edit.NsScoped (P.srcOf v key)) (hr : Ranked (Edit.envOf P t st) lt) :
+    WF (Edit.envOf P t st) lt :=
+  Edit.wf_envOf P t st lt ha hnc hsc hr
+
+/-- …and then EVERY history is admissible -/
+theorem histories_admissible_from_sources (P : Edit.Params) (lt : Node → Node → Prop)
+    (hnc : ∀ v key, Edit.NsNoCatch (P.srcOf v key)) (hsc : ∀ v key, Edit.NsScoped (P.srcOf v key))
+    (hcalls : ∀ v key, Edit.NsNoCalls (P.srcOf v key)) (ops : List Edit.Op) : Edit.Admissible P lt {} ops :=
+  Edit.admissible_of_sources P lt hnc hsc hcalls ops {} Edit.allocOK_empty
+
+/-! Non-vacuity (`Proofs/EditMachineExamples.lean`): `Base.f = y * 2`, `Base.y = 1`, `Sub(Base)` with
+its own `y = 10`.  `Sub.f()` – the DERIVED cells, `y` resolved in `Sub` – is 20 and `Base.f()` is 2.
+`Base.f` is redefined as `y * 3`: `set_cells_property` clears `Base.f` AND its derived copy `Sub.f`
+(nothing is held any more); `Sub.f()` is 30.  The history is admissible, the invariant holds at
+its end, the model that only saw the edits answers 30 too. -/
+example : Edit.CIW Edit.eP idLt (Edit.run Edit.eP {} Edit.eOps) :=
+  (machine_reachable_ci Edit.eP idLt idLt_strict Edit.eOps Edit.eOps_admissible).1
+
+example : Edit.answer Edit.eP (Edit.run Edit.eP {} (Edit.eOps.take 5)) ["Sub"] "f" [] = some (.ok (.int 20)) ∧
+    Edit.answer Edit.eP (Edit.run Edit.eP {} (Edit.eOps.take 5)) ["Base"] "f" [] = some (.ok (.int 2)) ∧
+    (Edit.run Edit.eP {} (Edit.eOps.take 7)).ex.data = [((0, []), .int 2), ((1, []), .int 20)] ∧
+    (Edit.run Edit.eP {} (Edit.eOps.take 8)).ex.data = [] ∧
+    Edit.answer Edit.eP (Edit.run Edit.eP {} Edit.eOps) ["Sub"] "f" [] = some (.ok (.int 30)) ∧
+    Edit.answer Edit.eP (Edit.run Edit.eP {} (Edit.noEvals Edit.eOps)) ["Sub"] "f" [] = some (.ok (.int 30)) := by
+  decide
+
+/-- what `set_cells_property` of `Base.f` clears in that state: the cells (identity 0) and its
+derived copy in `Sub` (identity 1) – and the check agrees with the theorem -/
+example : Edit.clearing [] (Edit.run Edit.eP {} (Edit.eOps.take 7)).tabs (Edit.run Edit.eP {} (Edit.eOps.take 7)).sm
+      (Edit.run Edit.eP {} (Edit.eOps.take 8)).sm (.setFormula ["Base"] "f" 1) = [.obj 0, .obj 1] ∧
+    Edit.stepCovered Edit.eP (Edit.run Edit.eP {} (Edit.eOps.take 7)) (.struct (.setFormula ["Base"] "f" 1)) = true := by
+  decide
+
+example (v v' : Val) (h1 : Edit.answer Edit.eP (Edit.run Edit.eP {} Edit.eOps) ["Base"] "f" [] = some (.ok v))
+    (h2 : Edit.answer Edit.eP (Edit.run Edit.eP {} (Edit.noEvals Edit.eOps)) ["Base"] "f" [] = some (.ok v')) : v = v' :=
+  live_equals_edits_only Edit.eP idLt idLt_strict Edit.eOps Edit.eOps_admissible ["Base"] "f" [] v v' h1 h2
+
+example : Edit.noEvals Edit.eOps = [
+    .struct (.newSpace [] "Base" [] []), .struct (.newCells ["Base"] "f" "f" 0), .struct (.setRef ["Base"] "y" 1),
+    .struct (.newSpace [] "Sub" [["Base"]] []), .struct (.setRef ["Sub"] "y" 10),
+    .struct (.setFormula ["Base"] "f" 1)] := rfl
+
+/-- the reference a behaviour reads first by name, if that is what it starts with -/
+def firstNameRead : Prog → Option RefId
+  | .read false r _ => some r
+  | _ => none
+
+/-- the derived `Sub.f` (identity 1) reads the reference `y` OF `Sub` (identity 1), `Base.f` the one of `Base` -/
+example : firstNameRead (((Edit.run Edit.eP {} (Edit.eOps.take 5)).env Edit.eP).formula (1, [])) = some 1 ∧
+    firstNameRead (((Edit.run Edit.eP {} (Edit.eOps.take 5)).env Edit.eP).formula (0, [])) = some 0 ∧
+    (Edit.run Edit.eP {} (Edit.eOps.take 5)).tabs.cid ["Sub"] "f" = 1 ∧
+    (Edit.run Edit.eP {} (Edit.eOps.take 5)).tabs.rid ["Sub"] "y" = 1 ∧
+    (Edit.run Edit.eP {} (Edit.eOps.take 5)).sm.mem .cells ["Sub"] "f" = some ⟨true, 0⟩ := by
+  decide
+
+/-- the sources of the example are in the regime, in every structure -/
+example (ops : List Edit.Op) : Edit.Admissible Edit.eP idLt {} ops :=
+  histories_admissible_from_sources Edit.eP idLt Edit.eP_noCatch Edit.eP_scoped Edit.eP_noCalls ops
+
+/-- a reference edit in the base reaches the sub space that derives the reference: `Base.y := 5` in a
+model where `Sub2(Base)` does NOT override `y`: `Sub2.f()` goes from 2 to 10 -/
+example :
+    let ops : List Edit.Op := [
+      .struct (.newSpace [] "Base" [] []), .struct (.newCells ["Base"] "f" "f" 0), .struct (.setRef ["Base"] "y" 1),
+      .struct (.newSpace [] "Sub2" [["Base"]] []), .eval ["Sub2"] "f" [], .struct (.setRef ["Base"] "y" 5)]
+    Edit.answer Edit.eP (Edit.run Edit.eP {} (ops.take 5)) ["Sub2"] "f" [] = some (.ok (.int 2)) ∧
+    (Edit.run Edit.eP {} (ops.take 5)).ex.data = [((1, []), .int 2)] ∧
+    (Edit.run Edit.eP {} ops).ex.data = [] ∧
+    Edit.answer Edit.eP (Edit.run Edit.eP {} ops) ["Sub2"] "f" [] = some (.ok (.int 10)) ∧
+    Edit.stepCovered Edit.eP (Edit.run Edit.eP {} (ops.take 5)) (.struct (.setRef ["Base"] "y" 5)) = true := by
+  decide
 
 end MxModel.C02
